@@ -218,8 +218,8 @@ def task_main(prop, seed):
         return None
 
     def inv(st, k):
-        L = st.env.get("molecules")
-        if not isinstance(L, MolList):
+        L = pyvc.local(st, "molecules", MolList)
+        if L is pyvc.UNBOUND:
             return z3.BoolVal(False)
         return z3.And(k >= 0, _list_ok(L, k, True))
 
@@ -390,8 +390,8 @@ def task_classify(prop, seed):
                                                 z3.And(pred(f), 0 <= z3.Select(Sx.wit, f), z3.Select(Sx.wit, f) < k, File(z3.Select(Sx.wit, f)) == f))))
 
     def inv(st, k):
-        t, c = st.env.get("topology_files"), st.env.get("coordinate_files")
-        if not isinstance(t, SymSet) or not isinstance(c, SymSet):
+        t, c = pyvc.local(st, "topology_files", SymSet), pyvc.local(st, "coordinate_files", SymSet)
+        if t is pyvc.UNBOUND or c is pyvc.UNBOUND:
             return z3.BoolVal(False)
         return z3.And(k >= 0, set_ok(t, TopF, k), set_ok(c, CoordF, k))
 
